@@ -348,15 +348,28 @@ def run(rep, drv):
 		if not close(pu, sm[0], 1e-12) or not close(pd, sm[1], 1e-12):
 			bad('markov', 'steady state (%r,%r), model (%s,%s)' % (pu, pd, sm[0], sm[1]), case)
 		l = [rng.random() < .4 for _ in range(rng.randint(1, 7))]
-		de = DisruptionProcess(random_process_type='E', disruption_type='SP', disruption_state_list=l)
+		shape = rng.choice(['list', 'list', 'tuple', 'ndarray', 'single'])          # any sequence of states, or one state for every period
+		if shape == 'single':
+			l = l[:1]
+		arg = l if shape == 'list' else (tuple(l) if shape == 'tuple' else (np.array(l) if shape == 'ndarray' else l[0]))
+		rep.count('explicit:' + shape)
+		de = DisruptionProcess(random_process_type='E', disruption_type='SP', disruption_state_list=arg)
 		ts = [rng.randint(0, 25) for _ in range(5)]
 		got = []
 		for t in ts:
-			de.update_disruption_state(period=t); got.append(bool(de.disrupted))
+			try:
+				de.update_disruption_state(period=t)
+				v_ = de.disrupted
+				got.append(bool(v_) if isinstance(v_, (bool, np.bool_)) else 'not-a-state:' + type(v_).__name__)
+			except Exception as e:
+				got.append('error:' + err_enum(e))
 		mo = drv.call('explicit', list=l, ts=ts)
 		rep.case('explicit', {'list': l, 'ts': ts}); rep.exact_cmp += 1
-		_, down = de.steady_state_probabilities()
-		if got != mo['states'] or not close(down, unfr(mo['down']), 1e-12):
+		try:
+			_, down = de.steady_state_probabilities()
+		except Exception as e:
+			down = float('nan')
+		if got != mo['states'] or (shape != 'single' and not close(down, unfr(mo['down']), 1e-12)):          # the steady state is documented for lists only
 			bad('explicit', 'explicit list %s at periods %s -> %s (down fraction %r), model %s (%s)' % (l, ts, got, down, mo['states'], mo['down']), {'list': l, 'ts': ts})
 
 
